@@ -221,3 +221,10 @@ package dawn
 //@   ensures  uptodate-only-if-equal: result.0 ==> (result.3 == nil && steq(f.oldEnv, f.newEnv))
 //@   ensures  reason-or-error: (!result.0 && result.3 == nil) ==> result.1 != ""
 //@   modifies heap, dkeys, dvals, it_seen
+
+// ---------------------------------------------------------------- C17: glob() walks every directory
+// The walk callback of glob() prunes nothing but the build-state directory: a non-nil result other
+// than the error it was handed is returned only for "/.dawn/build".
+//@ func (*dawn.Project).builtin_glob$1
+//@   retassert prunes-only-build-state: (result != nil && result != err) ==> path == "/.dawn/build"
+//@   modifies heap
